@@ -60,6 +60,7 @@ Check ==
      /\ Assert(AddUnreadies(S, c, S'), <<"C19 AddUnreadies", hist'>>)
      /\ Assert(AddDestUnreadies(S, c, S'), <<"C19 AddDestUnreadies", hist'>>)
      /\ Assert(FailedStepUnreadies(S, c, S'), <<"C19 FailedStepUnreadies", hist'>>)
+     /\ Assert(MapsConsistent(S'), <<"MapsConsistent", hist'>>)
      /\ Assert(UseSemantics(S, c, S', res'), <<"C13 UseSemantics", hist'>>)
      /\ Assert(ExplicitHonoured(S, c, S'), <<"C13 ExplicitHonoured", hist'>>)
 Emit == (EmitOn /\ Len(hist') <= MaxDepth) =>
@@ -68,6 +69,7 @@ Emit == (EmitOn /\ Len(hist') <= MaxDepth) =>
              vars |-> [e \in InNet(S') \cap Declaring |-> S'.vars[e]],
              nxt |-> [e \in InNet(S') \cap Stateful |-> IF S'.nxt[e].has THEN S'.nxt[e].kind ELSE ""],
              ready |-> Ready(S'), uniform |-> Uniform(S'),
+             maps |-> [states |-> MapStates(S'), next_states |-> MapNext(S'), actions |-> MapActions(S'), disturbances |-> MapDisturbances(S')],
              lastpar |-> IF S'.nxt["L2"].has THEN <<S'.nxt["L2"].par, S'.nxt["L2"].opts, S'.nxt["L2"].vals>> ELSE <<"", "", "">>]))
 Step == Check /\ Emit
 =============================================================================
